@@ -142,12 +142,6 @@ Definition establishes (k : N) (o : hop) : option N :=
   else if is_get o then h_res o
   else None.
 
-Definition established_vals (k : N) (h : list hop) : list N :=
-  flat_map (fun o => match establishes k o with Some v => [v] | None => [] end) h.
-
-Definition min_list (l : list N) : option N :=
-  match l with [] => None | x :: l' => Some (fold_left N.min l' x) end.
-
 (* `removes min v`: a clean with this minimum removes an entry of slot v — decided by the model's clean *)
 Definition removes (min v : N) : bool :=
   match cget 0 (cclean min [(0, v)]) with None => true | Some _ => false end.
